@@ -168,7 +168,9 @@ def handleShape (j : Json) : Except String Json := do
     let pair ← e.getArr?
     if pair.size != 2 then throw "bad pair"
     pure ((← pair[0]!.getNat?), (← pair[1]!.getNat?))
-  pure (Json.mkObj [("sides", jList jNat (pairs.map fun p => sideOf cfg p.1 p.2))])
+  pure (Json.mkObj [("sides", jList jNat (pairs.map fun p => sideOf cfg p.1 p.2)),
+    ("native_ok", jList Json.bool (pairs.map fun p => nativeOk cfg p.1 p.2)),
+    ("upper_first", jList jF (pairs.map fun p => upperUnit floatNum cfg (sideOf cfg p.1 p.2) 0.0))])
 
 /-- `cellcomp`: the composition of sampled cells (`mapper_from_partial_prior_arguments`): places, ids in
 parameter order, prior count and the instance built from a vector -/
